@@ -6,7 +6,7 @@ fn toks(m: &DecodedMap) -> Vec<(u32, u32)> { match m { DecodedMap::Regular(sm) =
 /// C12: reader path == slice path == reference header rule, for every chunking
 pub fn header() -> Report {
     let maxlen = if crate::deep() { 6 } else { 5 };
-    let bound_s = format!("every header over {{) ] ' x CR LF}} of length <= {maxlen} in front of a fixed valid map (and alone), x every chunking with <= 2 cut points in the first header+3 bytes plus 1-byte reads");
+    let bound_s = format!("every header over {{) ] ' x CR LF}} of length <= {maxlen} in front of a fixed valid map (and alone), x every chunking with <= 2 cut points in the first header+3 bytes plus 1-byte reads; 38 documents (valid, truncated, trailing data, non-UTF-8 bytes in a string, bad VLQ, non-maps, each also behind a junk header) through slice / reader / both detection predicates / their data URL");
     let bound = bound_s.as_str();
     let body: &[u8] = br#"{"version":3,"sources":["a"],"names":[],"mappings":"AAAA,CAAC"}"#;
     let alpha: &[u8] = b")]'x\r\n";
@@ -33,6 +33,37 @@ pub fn header() -> Report {
             if is_sourcemap(Chunked { data: &data, pos: 0, cuts: cuts.clone(), k: 0 }) != expected_ok { return rep(bound, cases, format!("is_sourcemap(reader {:?} chunks {cuts:?}) != {}", String::from_utf8_lossy(&data), expected_ok)); }
         }
     } }
+    // documents: valid, truncated, corrupted, with trailing data, with bytes that are not UTF-8; all four entry points
+    // (slice, reader, both detection predicates) and the data URL of the document must agree
+    let docs: Vec<Vec<u8>> = {
+        let mut v: Vec<Vec<u8>> = vec![body.to_vec()];
+        for k in [1usize, 10, body.len() - 1] { v.push(body[..k].to_vec()); }
+        for tail in [&b";"[..], b" x", b"{}", b"\n", b" \n ", b"}", br#"{"version":3}"#] { let mut d = body.to_vec(); d.extend_from_slice(tail); v.push(d); }
+        for bad in [&b"\xe9"[..], b"\xff", b"\xe2\x82"] { let mut d = br#"{"version":3,"sources":["a"#.to_vec(); d.extend_from_slice(bad); d.extend_from_slice(br#".js"],"names":[],"mappings":"AAAA"}"#); v.push(d); }
+        v.push(br#"{"version":3,"sources":["a"],"names":[],"mappings":"AAAA,C!C"}"#.to_vec());
+        v.push(br#"[1,2]"#.to_vec()); v.push(br#"{"foo":1}"#.to_vec()); v.push(br#"{"version":3,"sections":[]}"#.to_vec());
+        let mut with_hdr = vec![]; for d in &v { let mut h = b")]}'\n".to_vec(); h.extend_from_slice(d); with_hdr.push(h); }
+        v.extend(with_hdr); v
+    };
+    for data in &docs {
+        cases += 1;
+        let s = match guarded(|| decode_slice(data)) { Ok(x) => x, Err(p) => return rep(bound, cases, format!("decode_slice({:?}): {p}", String::from_utf8_lossy(data))) };
+        let ps = is_sourcemap_slice(data);
+        for cuts in [vec![], vec![1; data.len()], vec![7, 3]] {
+            let r = match guarded(|| decode(Chunked { data, pos: 0, cuts: cuts.clone(), k: 0 })) { Ok(x) => x, Err(p) => return rep(bound, cases, format!("decode(reader {:?} chunks {cuts:?}): {p}", String::from_utf8_lossy(data))) };
+            if r.is_ok() != s.is_ok() { return rep(bound, cases, format!("document {:?} read in chunks {:?}: reader is_ok = {}, slice is_ok = {}", String::from_utf8_lossy(data), &cuts[..cuts.len().min(3)], r.is_ok(), s.is_ok())); }
+            if let (Ok(a), Ok(b)) = (&r, &s) { if toks(a) != toks(b) { return rep(bound, cases, format!("document {:?}: reader and slice decode different maps", String::from_utf8_lossy(data))); } }
+            let pr = is_sourcemap(Chunked { data, pos: 0, cuts: cuts.clone(), k: 0 });
+            if pr != ps { return rep(bound, cases, format!("document {:?} (chunks {:?}): is_sourcemap (reader) = {pr}, is_sourcemap_slice = {ps}", String::from_utf8_lossy(data), &cuts[..cuts.len().min(3)])); }
+        }
+        // a base64 data URL decodes to the same outcome as its payload
+        for pre in ["data:application/json;base64,", "data:application/json;charset=utf-8;base64,"] {
+            let url = format!("{pre}{}", refs::base64(data));
+            let u = match guarded(|| sourcemap::decode_data_url(&url)) { Ok(x) => x, Err(p) => return rep(bound, cases, format!("decode_data_url of {:?}: {p}", String::from_utf8_lossy(data))) };
+            if u.is_ok() != s.is_ok() { return rep(bound, cases, format!("payload {:?}: decode_data_url is_ok = {}, decode_slice of the payload is_ok = {}", String::from_utf8_lossy(data), u.is_ok(), s.is_ok())); }
+            if let (Ok(a), Ok(b)) = (&u, &s) { if toks(a) != toks(b) { return rep(bound, cases, format!("payload {:?}: the data URL decodes to a different map", String::from_utf8_lossy(data))); } }
+        }
+    }
     Report { harness: "header", bound: bound.into(), cases, cex: None }
 }
 fn rep(bound: &str, cases: u64, c: String) -> Report { Report { harness: "header", bound: bound.into(), cases, cex: Some(c) } }
